@@ -17,7 +17,7 @@ import (
 
 // c06 client record kinds
 var c06ClientKinds = []string{"ch_good", "ch_good", "ch_good", "ch_no_ech", "ch_other_id", "ch_other_suite", "ch_enc_nonempty", "ch_fresh_ctx", "ch_seq_skip",
-	"ch_sni_changed", "ch_alpn_changed", "ch_alpn_reordered", "ch_no_inner_ext", "ch_outer_sni_changed", "ch_plain", "ccs", "ccs", "hs_other", "appdata", "alert"}
+	"ch_sni_changed", "ch_alpn_changed", "ch_alpn_reordered", "ch_no_inner_ext", "ch_outer_sni_changed", "ch_outer_no_tls13", "ch_plain", "ccs", "ccs", "hs_other", "appdata", "alert"}
 var c06BackendKinds = []string{"hrr", "hrr", "hrr", "sh", "ccs", "appdata", "hs_other"}
 
 var c06RetryClass = map[string]string{
@@ -25,6 +25,7 @@ var c06RetryClass = map[string]string{
 	"ch_other_id": "illegal_parameter", "ch_other_suite": "illegal_parameter", "ch_enc_nonempty": "illegal_parameter",
 	"ch_fresh_ctx": "decrypt_error", "ch_seq_skip": "decrypt_error",
 	"ch_outer_sni_changed": "illegal_parameter",
+	"ch_outer_no_tls13":    "illegal_parameter|decrypt_error",
 	"ch_sni_changed": "illegal_parameter", "ch_alpn_changed": "illegal_parameter", "ch_alpn_reordered": "illegal_parameter", "ch_no_inner_ext": "illegal_parameter",
 }
 
@@ -79,6 +80,22 @@ func TestC06(t *testing.T) {
 				out2.Exts = append(out2.Exts[:i], out2.Exts[i+1:]...)
 				r.bytes = hello.Record(22, 0x0303, out2.Message())
 				return r
+			case "ch_outer_no_tls13":
+				// retried outer hello that no longer offers TLS 1.3: cannot be a valid retry
+				if i := out2.Find(hello.ExtSupportedVersions); i >= 0 {
+					compressed := false
+					for _, e := range tp.Inner.Exts[tp.RunStart : tp.RunStart+tp.RunLen] {
+						compressed = compressed || e.Type == hello.ExtSupportedVersions
+					}
+					if compressed {
+						runStart, runLen = 0, 0
+					}
+					if rapid.Bool().Draw(t, "no13_drop") {
+						out2.Exts = append(out2.Exts[:i], out2.Exts[i+1:]...)
+					} else {
+						out2.Exts[i].Data = hello.VersionsExt([]uint16{0x0303})
+					}
+				}
 			case "ch_outer_sni_changed":
 				// authentic retried hello whose outer SNI is no longer the public name
 				i := out2.Find(hello.ExtSNI)
@@ -217,6 +234,13 @@ func TestC06(t *testing.T) {
 					if errClass(e) == altClass && altClass != "" {
 						wantClass = altClass
 					}
+					if strings.Contains(wantClass, "|") {
+						for _, alt := range strings.Split(wantClass, "|") {
+							if errClass(e) == alt {
+								wantClass = alt
+							}
+						}
+					}
 					if errClass(e) != wantClass {
 						ev.Violation(t, "C06", rp, "ill-formed retried hello (%s): error %q, want class %s", cr.kind, e, wantClass)
 					}
@@ -354,9 +378,12 @@ func TestC06(t *testing.T) {
 				if hrrEnd >= 0 && flushed < hrrEnd && flushed+n < hrrEnd && flushed+n > hrrEnd-60 {
 					hrrSplit = true
 				}
-				b := backendQueued[flushed : flushed+n]
+				b := append(make([]byte, 0, n+4), backendQueued[flushed:flushed+n]...) // scratch buffer, scribbled over after the call
 				var k int
 				e := guard(func() error { var e error; k, e = c.Write(b); return e })
+				for i := range b[:cap(b)] {
+					b[:cap(b)][i] = 0xee
+				}
 				if e != nil || k != n {
 					ev.Violation(t, "C06", map[string]any{"ops": ops, "first_record": hx(sc.Record)}, "Write returned (%d,%v) for %d bytes", k, e, n)
 				}
